@@ -97,7 +97,8 @@ def render(ops, files, prefix="f"):
 
 def sequences(maxlen, rng, budget):
     atoms = [("define", n, v) for n in NAMES for v in VALUES] + [("use", n) for n in NAMES] + [("useb", n) for n in NAMES] + \
-            [("define", "$a", "lit"), ("define", "${B}_z", "lit"), ("define", "a$$", "x"), ("define", "a-b", "x")]
+            [("define", "$a", "lit"), ("define", "${B}_z", "lit"), ("define", "a$$", "x"), ("define", "a-b", "x"),
+             ("define", "a(b)", "x"), ("define", "a)", "x"), ("define", "B()", "lit"), ("define", "(a", "x")]
     # exhaustive up to length 2, then all sequences of the given length over a reduced atom set, then sampled
     for n in range(1, 3):
         yield from itertools.product(atoms, repeat=n)
